@@ -360,6 +360,8 @@ func (rt *runtime) claimTokens(kid string) []Tok {
 	auds := []named{
 		{"absent", absent}, {"'aud-one'", "aud-one"}, {"'x aud-one'", "x aud-one"}, {"[x,aud-one]", []any{"x", "aud-one"}},
 		{"[x,y]", []any{"x", "y"}}, {"'x'", "x"}, {"'aud-three'", "aud-three"}, {"[aud-two]", []any{"aud-two"}}, {"[]", []any{}},
+		// the string form is a space separated list: other white space does not separate values
+		{"'x<TAB>aud-one'", "x\taud-one"},
 	}
 
 	type sc struct {
@@ -387,6 +389,8 @@ func (rt *runtime) claimTokens(kid string) []Tok {
 		{"scope='api.read bill'", absent, "api.read bill"},
 		{"scope=''", absent, ""},
 		{"scp=['']", []any{""}, absent},
+		{"scope='x<TAB>read write'", absent, "x\tread write"},
+		{"scope='read<NBSP>write'", absent, "read\u00a0write"},
 	}
 
 	for _, i := range isss {
